@@ -133,6 +133,9 @@ def mutations():
         recs = [x] if isinstance(x, ProvRecord) else [r for c in containers_of(x) for r in c.get_records()]
         for r in recs:
             r.add_attributes({"ex:added": "later", "prov:label": "late label"})
+            # one more value under every attribute name the record already has (shared value sets show up here)
+            for name in sorted({a for a, _ in r.attributes if a.namespace.uri != "http://www.w3.org/ns/prov#"}, key=str):
+                r.add_attributes([(name, "one more value")])
     yield "add-attributes-to-every-record", add_attrs
 
     def add_rec(x):
